@@ -105,6 +105,7 @@ class Minimization(Instantiater):
         See Instantiater for more info.
         """
         target = self.check_target(target)
+        self.check_target_dim(circuit, target)
         start_gen = RandomStartGenerator()
         starts = start_gen.gen_starting_points(num_starts, circuit, target)
         cost_fn = self.cost_fn_gen.gen_cost(circuit, target)
@@ -127,6 +128,7 @@ class Minimization(Instantiater):
         """
         from bqskit.runtime import get_runtime
         target = self.check_target(target)
+        self.check_target_dim(circuit, target)
         start_gen = RandomStartGenerator()
         starts = start_gen.gen_starting_points(num_starts, circuit, target)
         cost_fn = self.cost_fn_gen.gen_cost(circuit, target)
